@@ -78,6 +78,28 @@ fn real_main(args: &[String]) -> i32 {
             println!("{}", J::Arr(steps.iter().map(|x| x.to_json()).collect()).pretty());
             0
         }
+        "inproc" => {
+            // in-process execution of a run range without worker processes or files: what Miri interprets
+            let (Some(prop), Some(tier)) = (args.get(2).and_then(|p| Prop::parse(p)), args.get(3)) else { return usage() };
+            let seed: u64 = arg_val(args, "--seed").and_then(|v| v.parse().ok()).unwrap_or(1);
+            let from: u64 = arg_val(args, "--from").and_then(|v| v.parse().ok()).unwrap_or(0);
+            let to: u64 = arg_val(args, "--to").and_then(|v| v.parse().ok()).unwrap_or(1);
+            let max_steps: usize = arg_val(args, "--max-steps").and_then(|v| v.parse().ok()).unwrap_or(usize::MAX);
+            let mut steps_total = 0u64;
+            for run in from..to {
+                let mut steps = runner::gen(prop, seed, run, tier);
+                steps.truncate(max_steps);
+                steps_total += steps.len() as u64;
+                let (res, log, _) = trace::run_trace(&steps, prop, false);
+                if let Some((k, f)) = res {
+                    println!("FOUND property={} run={} step={} rule={} detail={}", prop.id(), run, k, f.rule, f.detail);
+                    return 1;
+                }
+                println!("run {} ok: {} steps, log {:016x}", run, steps.len(), log.hash());
+            }
+            println!("inproc {} runs {}..{} ok, {} steps", prop.id(), from, to, steps_total);
+            0
+        }
         "run" => {
             let (Some(prop), Some(tier)) = (args.get(2).and_then(|p| Prop::parse(p)), args.get(3)) else { return usage() };
             let out = PathBuf::from(arg_val(args, "--out").unwrap_or_else(|| "/dev/null".into()));
@@ -101,7 +123,7 @@ fn real_main(args: &[String]) -> i32 {
 fn run_cmd(a: &runner::RunArgs) -> i32 {
     // determinism first: a sample of runs executed in two processes with 1 and N workers
     let sc_runs = match a.tier.as_str() {
-        "thorough" => 20_000u64.min(runner::plan_runs(a.prop, "selfcheck")),
+        "thorough" => 4_000u64.min(runner::plan_runs(a.prop, "selfcheck")),
         _ => 500u64.min(runner::plan_runs(a.prop, "selfcheck")),
     };
     let (sc_compared, sc_mismatch, sc_errors) = runner::selfcheck(a, sc_runs);
